@@ -849,6 +849,14 @@ class RTDCBase(abc.ABC):
                     f"Encountered cyclic basin dependency '{bdict['key']}'",
                     feat_basin.CyclicBasinDependencyFoundWarning)
                 continue
+            if (bdict["type"] in ["file", "internal", "remote"]
+                    and bc[bdict["format"]].basin_type != bdict["type"]):
+                # e.g. a "remote" basin with a local file format would
+                # access the local file system
+                warnings.warn(
+                    f"Basin format '{bdict['format']}' does not match "
+                    f"basin type '{bdict['type']}'!")
+                continue
 
             # Basin initialization keyword arguments
             kwargs = {
